@@ -228,6 +228,49 @@ def r7_gate_is_the_only_gate(ctx):
     R.floor("C19.R7.upgrade", m, 1, "upgrade tests in the server")
 
 
+def r8_body_reaches_read_body_untouched(ctx):
+    """between the socket and read_body nothing looks at, cuts or replaces the request body: (a) the HttpBody wrapper's
+    Body impl is pure delegation (poll_frame returns the inner poll_frame's result as it is - an `empty data frame = end`
+    shortcut truncates bodies that contain an empty chunk); (b) no server/core code consults size_hint() / is_end_stream()
+    to decide about a request body (`lower() == 0` is also what a chunked body without Content-Length reports);
+    (c) the hyper->tower adaptor wraps the incoming body unconditionally."""
+    F, R = ctx.F, ctx.R
+    tr = ctx.tracer(follow_callers=False, follow_fields=False, inline_calls=False)
+    pf = F.one(r"^<jsonrpsee_core::http_helpers::Body as http_body::Body>::poll_frame$")
+    R.fn(pf)
+    inner = pf.calls_to(r"Body>?::poll_frame$")
+    lv = tr.origins(pf, {"cp": {"l": 0}})
+    direct = len(inner) == 1 and bool(lv) and all(l.kind == "call" and re.search(r"poll_frame$", l.detail["callee"] or "") for l in lv)
+    peeks = pf.calls_to(r"Frame::<.*>::(into_data|data_ref|data_mut|is_data|is_trailers|into_trailers|map_data)$|Buf::(has_remaining|remaining)$")
+    R.check(direct and not peeks, "C19.R8", "http-body:poll_frame-delegates", "HttpBody::poll_frame hands the inner body's frames on unchanged", "the HttpBody wrapper's poll_frame inspects or rewrites frames (%s): a body is cut at an empty chunk / changed depending on how it was split" % (sorted({short(c.name()) for c in peeks}) or [flow.leaf_str(l)[:60] for l in lv]), "%s:%d" % (pf.file, pf.lo))
+    n = 0
+    bad = []
+    for b in F.real_bodies():
+        if b.crate not in (SERVER, CORE) or is_test_body(b):
+            continue
+        if re.search(r" as http_body::Body>::(size_hint|is_end_stream|poll_frame)$", b.path):
+            continue
+        n += 1
+        for c in b.calls_to(r"Body>?::(size_hint|is_end_stream)$|SizeHint::(lower|upper|exact)$"):
+            bad.append((b, c))
+    for b, c in bad:
+        R.bad("C19.R8", "%s:consults-%s" % (fkey(b), (c.name() or "").split("::")[-1]), "%s consults %s of a request body: the hint is 0 / unknown for a body sent without Content-Length, so the same bytes are treated differently depending on the framing" % (short(b.path), (c.name() or "").split("::")[-1]), where(c))
+    if not bad:
+        R.ok("C19.R8", "no-size-hint-decisions", "no size_hint()/is_end_stream() decision in %d server/core bodies" % n)
+    ad = F.find(r"^<jsonrpsee_server::utils::TowerToHyperService<S> as hyper::service::Service<hyper::Request<hyper::body::Incoming>>>::call$")
+    if not ad:
+        raise AnchorLost("TowerToHyperService::call")
+    for b in ad:
+        R.fn(b)
+        maps = b.calls_to(r"Request::<.*>::map$")
+        ok = False
+        for m in maps:
+            k = op_const(m.args[1]) if len(m.args) > 1 else None
+            if k and re.search(r"http_helpers::Body::new$", k.get("fn", "") or ""):
+                ok = True
+        R.check(ok and len(maps) == 1, "C19.R8", "adaptor:wraps-body-unconditionally", "the hyper->tower adaptor wraps the incoming body with HttpBody::new", "TowerToHyperService::call no longer wraps the incoming body unconditionally with HttpBody::new (it decides per request what body the service gets)", "%s:%d" % (b.file, b.lo))
+
+
 def r5_loop_exits(ctx):
     read_body_loop_exits(ctx.F, ctx.R, "C19.R5", ctx.tracer(follow_callers=False, follow_fields=False))
 
@@ -239,7 +282,7 @@ def rstatus_http_status_table(ctx):
     http_status_table(ctx, "C19.STATUS", ('method_not_allowed', 'unsupported_content_type', 'from_method_response'))
 
 
-RULES = [r1_gate, r2_chunk_independence, r3_is_json, r4_content_length_use, r5_loop_exits, r6_proxy_rewrites_only_what_it_proxies, r7_gate_is_the_only_gate, rstatus_http_status_table]
+RULES = [r1_gate, r2_chunk_independence, r3_is_json, r4_content_length_use, r5_loop_exits, r6_proxy_rewrites_only_what_it_proxies, r7_gate_is_the_only_gate, r8_body_reaches_read_body_untouched, rstatus_http_status_table]
 
 LEVEL_TEXT = (
     "Structural necessary conditions decided from the type-checked program: the method/content-type gate by dominance on "
